@@ -27,19 +27,15 @@ pub open spec fn hdr_bytes(s: Seq<u8>) -> int {
     4 * (be16(s, 2) + 1)
 }
 
-/// exactly and consistently framed packet of type `pt` with minimum size `min`
+/// exactly and consistently framed packet of type `pt` with minimum size `min`: version 2, own type, length field
+/// matching the size, and - when the P bit is set - a non-zero padding count that leaves the fixed part (`min`) intact
 pub open spec fn framed(s: Seq<u8>, pt: int, min: int) -> bool {
     &&& s.len() >= 4
     &&& s.len() >= min
     &&& hdr_version(s) == 2
     &&& hdr_pt(s) == pt
     &&& hdr_bytes(s) == s.len()
-    &&& (hdr_pad(s) ==> s[s.len() - 1] != 0)
-}
-
-/// the announced padding fits behind the fixed part of the packet (a padding count larger than that is nonsensical)
-pub open spec fn pad_fits(s: Seq<u8>, min: int) -> bool {
-    hdr_pad(s) ==> s[s.len() - 1] as int <= s.len() - min
+    &&& (hdr_pad(s) ==> 1 <= s[s.len() - 1] as int <= s.len() - min)
 }
 
 /// the number of trailing padding octets announced by the packet (0 when the P bit is clear)
@@ -293,6 +289,148 @@ pub open spec fn fb_fci(s: Seq<u8>) -> Seq<u8> {
     s.subrange(12, s.len() - pad_count(s))
 }
 
+// ---- RFC 4585 6.2.1 generic NACK ---------------------------------------------------------------------
+// per 32-bit word: PID (16) | BLP (16); bit k-1 of the BLP (LSB = bit 0) set  <=>  packet PID+k is lost
+pub open spec fn nack_pid(d: Seq<u8>, i: int) -> int {
+    be16(d, 4 * i)
+}
+
+pub open spec fn nack_blp(d: Seq<u8>, i: int) -> int {
+    be16(d, 4 * i + 2)
+}
+
+pub open spec fn pow2(k: int) -> int
+    decreases k,
+{
+    if k <= 0 {
+        1
+    } else {
+        2 * pow2(k - 1)
+    }
+}
+
+pub open spec fn bit_set(v: int, k: int) -> bool {
+    (v / pow2(k)) % 2 == 1
+}
+
+/// sequence numbers still to be yielded from word i on; m == 0: the PID is next, 1..=16: bit m-1 is next, 17: next word
+pub open spec fn nack_rest(d: Seq<u8>, i: int, m: int) -> Seq<u16>
+    decreases d.len() - 4 * i, 17 - m,
+{
+    if i < 0 || m < 0 || 4 * i + 4 > d.len() {
+        Seq::empty()
+    } else if m > 16 {
+        nack_rest(d, i + 1, 0)
+    } else if m == 0 {
+        seq![nack_pid(d, i) as u16] + nack_rest(d, i, 1)
+    } else if bit_set(nack_blp(d, i), m - 1) {
+        seq![((nack_pid(d, i) + m) % 65536) as u16] + nack_rest(d, i, m + 1)
+    } else {
+        nack_rest(d, i, m + 1)
+    }
+}
+
+pub open spec fn nack_seq(d: Seq<u8>) -> Seq<u16> {
+    nack_rest(d, 0, 0)
+}
+
+// ---- RFC 5104 4.3.1 FIR: per entry SSRC (32) | Seq nr. (8) | Reserved (24) ------------------------------
+pub open spec fn fir_rest(d: Seq<u8>, i: int) -> Seq<(u32, u8)>
+    decreases d.len() - 8 * i,
+{
+    if i < 0 || 8 * i + 8 > d.len() {
+        Seq::empty()
+    } else {
+        seq![(be32(d, 8 * i) as u32, d[8 * i + 4])] + fir_rest(d, i + 1)
+    }
+}
+
+pub open spec fn img_fir_entry(ssrc: u32, seq_nr: u8) -> Seq<u8> {
+    img_be32(ssrc as int) + seq![seq_nr, 0u8, 0u8, 0u8]
+}
+
+pub open spec fn img_fir(e: Seq<(u32, u8)>, k: int) -> Seq<u8>
+    decreases k,
+{
+    if k <= 0 {
+        Seq::empty()
+    } else {
+        img_fir(e, k - 1) + img_fir_entry(e[k - 1].0, e[k - 1].1)
+    }
+}
+
+// ---- RFC 4585 6.3.2 SLI: per word First (13) | Number (13) | PictureID (6) -------------------------------
+pub open spec fn sli_first(w: int) -> int {
+    w / 0x8_0000
+}
+
+pub open spec fn sli_number(w: int) -> int {
+    (w / 64) % 8192
+}
+
+pub open spec fn sli_picture(w: int) -> int {
+    w % 64
+}
+
+pub open spec fn sli_rest(d: Seq<u8>, off: int) -> Seq<(u16, u16, u8)>
+    decreases d.len() - off,
+{
+    if off < 0 || off + 4 > d.len() {
+        Seq::empty()
+    } else {
+        seq![(sli_first(be32(d, off)) as u16, sli_number(be32(d, off)) as u16, sli_picture(be32(d, off)) as u8)] + sli_rest(d, off + 4)
+    }
+}
+
+pub open spec fn sli_word(first: int, number: int, picture: int) -> int {
+    (first % 8192) * 0x8_0000 + (number % 8192) * 64 + picture % 64
+}
+
+pub open spec fn img_sli(e: Seq<(u16, u16, u8)>, k: int) -> Seq<u8>
+    decreases k,
+{
+    if k <= 0 {
+        Seq::empty()
+    } else {
+        img_sli(e, k - 1) + img_be32(sli_word(e[k - 1].0 as int, e[k - 1].1 as int, e[k - 1].2 as int))
+    }
+}
+
+// ---- RFC 4585 6.3.3 RPSI: PB (8) | 0 | Payload Type (7) | Native RPSI bit string | padding (PB bits) ---------
+pub open spec fn rpsi_ok(d: Seq<u8>) -> bool {
+    d.len() >= 4 && d[0] as int / 8 <= d.len() - 2
+}
+
+pub open spec fn rpsi_pt(d: Seq<u8>) -> int {
+    d[1] as int % 128
+}
+
+pub open spec fn rpsi_bytes(d: Seq<u8>) -> Seq<u8> {
+    d.subrange(2, d.len() - d[0] as int / 8)
+}
+
+pub open spec fn rpsi_ignored_bits(d: Seq<u8>) -> int {
+    d[0] as int % 8
+}
+
+pub open spec fn rpsi_size(len: int) -> int {
+    pad4(2 + len)
+}
+
+/// the last byte of the bit string with its `overrun` trailing (low) bits cleared
+pub open spec fn rpsi_clear(b: u8, overrun: int) -> u8 {
+    (b as int - b as int % pow2(overrun)) as u8
+}
+
+pub open spec fn img_rpsi(pt: int, data: Seq<u8>, overrun: int) -> Seq<u8> {
+    let n = data.len() as int;
+    seq![(8 * (rpsi_size(n) - n - 2) + overrun) as u8, pt as u8] + (if n > 0 {
+        data.subrange(0, n - 1).push(rpsi_clear(data[n - 1], overrun))
+    } else {
+        Seq::<u8>::empty()
+    }) + zeros(rpsi_size(n) - n - 2)
+}
+
 // ---- error truthfulness (property C18) ------------------------------------------------------------
 pub open spec fn err_truthful(s: Seq<u8>, e: crate::RtcpParseError, own_pt: int) -> bool {
     match e {
@@ -317,7 +455,7 @@ pub open spec fn check_packet_spec(s: Seq<u8>, pt: u8, min: usize) -> Result<(),
         Err(crate::RtcpParseError::Truncated { expected: hdr_bytes(s) as usize, actual: s.len() as usize })
     } else if s.len() > hdr_bytes(s) {
         Err(crate::RtcpParseError::TooLarge { expected: hdr_bytes(s) as usize, actual: s.len() as usize })
-    } else if hdr_pad(s) && s[s.len() - 1] == 0 {
+    } else if hdr_pad(s) && (s[s.len() - 1] == 0 || s[s.len() - 1] as int > s.len() - min) {
         Err(crate::RtcpParseError::InvalidPadding)
     } else {
         Ok(())
